@@ -381,6 +381,16 @@ type c18Embedded struct {
 	C18Common
 	RC uint32 `avp:"Result-Code"`
 }
+type c18EmbeddedAfter struct {
+	RC uint32 `avp:"Result-Code"`
+	C18Common
+}
+type c18EmbeddedMiddle struct {
+	RC uint32 `avp:"Result-Code"`
+	C18Common
+	Session string `avp:"Session-Id"`
+	VSA     *c18VSA `avp:"Vendor-Specific-Application-Id"`
+}
 type c18Deep struct {
 	Failed struct {
 		VSA c18VSA `avp:"Vendor-Specific-Application-Id"`
@@ -478,6 +488,26 @@ func c18Statics() []c18Static {
 			}
 			h, r := strs[v%3], strs[v/3%3]
 			return &c18Embedded{C18Common: C18Common{h, r}, RC: 2001}, []refcodec.Node{strn(264, h), strn(296, r), u32n(268, 2001)}, true
+		}},
+		{"embedded-after-tagged-field", func(v int) (interface{}, []refcodec.Node, bool) {
+			if v >= 9 {
+				return nil, nil, false
+			}
+			h, r := strs[v%3], strs[v/3%3]
+			return &c18EmbeddedAfter{RC: u32s[v%3], C18Common: C18Common{h, r}}, []refcodec.Node{u32n(268, u32s[v%3]), strn(264, h), strn(296, r)}, true
+		}},
+		{"embedded-in-the-middle", func(v int) (interface{}, []refcodec.Node, bool) {
+			if v >= 6 {
+				return nil, nil, false
+			}
+			h := strs[v%3]
+			s := &c18EmbeddedMiddle{RC: 2001, C18Common: C18Common{h, "realm"}, Session: "sess;1"}
+			want := []refcodec.Node{u32n(268, 2001), strn(264, h), strn(296, "realm"), strn(263, "sess;1")}
+			if v >= 3 {
+				s.VSA = &c18VSA{10415, 4}
+				want = append(want, vsaNode(10415, 4))
+			}
+			return s, want, true
 		}},
 		{"group-in-group", func(v int) (interface{}, []refcodec.Node, bool) {
 			if v >= 3 {
@@ -655,7 +685,7 @@ func runC18(ctx *ev.Ctx) {
 			}
 		}
 	}
-	ctx.Rule = "struct types built with reflect.StructOf: one field for each of 19 dictionary AVPs (every scalar data type, a vendor-specific AVP, Float32/64, IPv4/6, IPFilterRule, QoSFilterRule from a generated dictionary) x each Go holder type (native scalar, datatype type, net.IP, []byte, time.Time) x wrapper {T, *T, []T, []*T} x six tag forms (plain, omitempty, each with a second key before/after) x values {boundary atoms; nil pointer; nil, empty, 1-, 2- and 4-element slices}; plus static shapes: nested struct, pointer to struct, slice of structs with omitempty members, slice of pointers, anonymous embedded struct, group in group, AVP / *AVP / []*AVP fields. Oracle: the AVP bytes Marshal produces equal the AVPs built by hand from the reference dictionary entry (code, vendor id, M from must, V from vendor, typed value); Unmarshal directly and after Serialize+ReadMessage reproduces the field values (nil == empty for slices, times by second, floats by bits)."
+	ctx.Rule = "struct types built with reflect.StructOf: one field for each of 19 dictionary AVPs (every scalar data type, a vendor-specific AVP, Float32/64, IPv4/6, IPFilterRule, QoSFilterRule from a generated dictionary) x each Go holder type (native scalar, datatype type, net.IP, []byte, time.Time) x wrapper {T, *T, []T, []*T} x six tag forms (plain, omitempty, each with a second key before/after) x values {boundary atoms; nil pointer; nil, empty, 1-, 2- and 4-element slices}; plus static shapes: nested struct, pointer to struct, slice of structs with omitempty members, slice of pointers, anonymous embedded struct (first, after a tagged field, in the middle), group in group, AVP / *AVP / []*AVP fields. Oracle: the AVP bytes Marshal produces equal the AVPs built by hand from the reference dictionary entry (code, vendor id, M from must, V from vendor, typed value); Unmarshal directly and after Serialize+ReadMessage reproduces the field values (nil == empty for slices, times by second, floats by bits)."
 	ctx.Assume = []string{"holder types are those for which the reflect code has a conversion path (AssignableTo / ConvertibleTo); Address holders carry IPv4 / IPv6 only"}
 }
 
